@@ -12,7 +12,7 @@ from gffutils.attributes import Attributes
 from pyvc.core import SInt, SBool, SStr, SSeq, Val, Lit, IntLit, Undecided, Ctx, mkstr
 from pyvc.interp import Interp, LoopExit
 from pyvc import ghostdb
-from pyvc.harness import install_loop_body_hook
+from pyvc.harness import Indexed, install_loop_body_hook
 from contracts.common import blank_feature, bins_contract
 from contracts import spec_bins as SB
 from contracts.qharness import blank_db, native_db
@@ -86,7 +86,7 @@ def _establish(U):
         ctx.stash["f"] = f
 
         def setup(env, c, iterable):
-            return (0, f)
+            return Indexed(0, f)
         install_loop_body_hook(it, "interfeatures", 0, setup)
         try:
             list(it.call(I.FeatureDB.interfeatures, [blank_db(), [f]], {}))
@@ -184,7 +184,7 @@ def unit_body(U):
                 i = z3.Int("i")
                 c.assume(i >= 1)
                 state["inter"] = inter
-                return (SInt(i), f)
+                return Indexed(SInt(i), f)
             install_loop_body_hook(it, "interfeatures", 0, setup)
             db = blank_db()
             ctx.stash.update(last=last, f=f, merged=merged, calls=calls, state=state)
